@@ -609,9 +609,11 @@ def run_pgl(inp):
     r2 = np.asarray(H.sl2_iso(A).to_sl2())
     # the other two components of O(2,1): -S
     rmA = np.asarray(lie.o_to_pgl(-SA))
+    # bilinear_form=None: the argument is already in the Killing basis, i.e. it is sl2_irrep(A, 3)
+    rN = np.asarray(lie.o_to_pgl(np.asarray(lie.sl2_irrep(A, 3)), bilinear_form=None))
     rmAB = np.asarray(lie.o_to_pgl((-SA) @ SB))
     return {"rA": rA.tolist(), "rB": rB.tolist(), "rAB": rAB.tolist(), "to_sl2": r2.tolist(),
-            "rmA": rmA.tolist(), "rmAB": rmAB.tolist()}
+            "rmA": rmA.tolist(), "rmAB": rmAB.tolist(), "rN": rN.tolist()}
 
 
 def pm_err(X, Y):
@@ -632,6 +634,9 @@ def judge_pgl(inp, obs, lr):
                     "tags": dict(tags0, site="recover_" + k, returns_PAP=bool(finite(obs[k]) and pm_err(obs[k], PAP) <= 1e-6))}
     if pm_err(obs["rAB"], np.array(obs["rA"]) @ np.array(obs["rB"])) > 1e-6:
         return {"expected": "o_to_pgl(S·T) = ± o_to_pgl(S)·o_to_pgl(T)", "observed": obs, "tags": dict(tags0, site="hom_up_to_sign")}
+    if not finite(obs["rN"]) or pm_err(obs["rN"], A) > 1e-6:
+        return {"expected": {"o_to_pgl(sl2_irrep(A,3), bilinear_form=None) = ±A": A.tolist()}, "observed": obs["rN"],
+                "tags": dict(tags0, site="form_none")}
     if not finite(obs["rmA"]) or pm_err(obs["rmA"], A) > 1e-6:
         return {"expected": {"o_to_pgl(-S) = ±A (O(2,1) → PGL(2) kills -1)": A.tolist()}, "observed": obs["rmA"],
                 "tags": dict(tags0, site="minus_S")}
@@ -835,7 +840,7 @@ CLAUSES = [
            what="sl2_to_so21 (arrays), sl2_iso (arrays, list input), o_to_pgl / hom.so21_to_sl2 / Isometry.to_sl2 on exact-ℚ matrices "
                 "incl. vanishing entries and det -1 — vs the model (repaired extraction; the pinned extraction is reported alongside)"),
     Clause("adjoint_corr", "corr", gen_adj, run_adj, judge_adj, lean=lean_adj, site="lie.gln_adjoint/sln_adjoint/sln_killing_form",
-           budget={"quick": 40, "thorough": 1000},
+           budget={"quick": 30, "thorough": 1000},
            what="gln_adjoint, sln_adjoint (direct and via lie.hom, with and without inv=), sln_killing_form, n = 2..6, ℚ and ℚ(i)"),
     Clause("blocks_corr", "corr", gen_blocks, run_blocks, judge_blocks, lean=lean_blocks, site="lie.slc_to_slr/block_include",
            budget={"quick": 100, "thorough": 2500},
@@ -845,7 +850,7 @@ CLAUSES = [
            what="whole arrays (composite shapes of rank 0-3, size-1 axes) through the literal ND models of the vectorised code "
                 "(entry loops with array arithmetic, broadcasting @, tiling linear_matrix_action) vs the arrays numpy returns"),
     Clause("so31_corr", "corr", gen_so31, run_so31, judge_so31, lean=lean_so31, site="lie.sl2c_to_so31",
-           budget={"quick": 40, "thorough": 1000},
+           budget={"quick": 30, "thorough": 1000},
            what="sl2c_to_so31 on SL(2,ℚ(i)) (incl. zero entries, real matrices, general invertible) vs the model over pairs of rationals; "
                 "the imaginary part dropped by utils.real is zero on both sides"),
     Clause("hom_oracle", "oracle", gen_hom, run_hom, judge_hom, site="lie.* / lie.hom.*",
